@@ -47,12 +47,13 @@ def _validate(sc, files, parallel=4, timeout=1500):
             kf.update(res["kf"])
             for d in _RE_DRIFT.findall(res["out"]):
                 drift[d] = drift.get(d, 0) + 1
-            if res["rejected_at"] is not None:
-                rej.append((fp, res["rejected_at"], res))
-            elif res["violated"]:
+            if res["violated"]:
                 # an invariant of the specification failed on the state reached after line `diameter - 1`
+                # (TLC then also evaluates the postcondition, whose high-water mark points one line further)
                 m = re.search(r"The depth of the complete state graph search is (\d+)", res["out"])
                 rej.append((fp, int(m.group(1)) - 1 if m else None, res))
+            elif res["rejected_at"] is not None:
+                rej.append((fp, res["rejected_at"], res))
             elif "Postcondition" in res["out"] and "is false" in res["out"]:
                 rej.append((fp, None, res))
             elif not res.get("completed"):
